@@ -168,6 +168,8 @@ def scenario(ctx, rng, j):
                 g = f | (1 << free[j % len(free)])
                 judge(f'{L}:claim-flag-not-permitted', lock,
                       mk(R, pre, fields, f'{g:02x}'), False)
+                judge(f'{L}:refund-flag-not-permitted', lock,
+                      mk(F, wrong, fields, f'{g:02x}'), False)
     # the same builder call repeated at a later creation time: the deadline is
     # creation time + timeout of THAT call (nothing remembered from the first)
     if j % 4 == 0 and timeout >= 1:
@@ -214,6 +216,15 @@ def scenario(ctx, rng, j):
           t_.make_ptlc_refund_witness(X, fields, f_hex), False)
     judge('ptlc:claim-with-tweak-on-untweaked-lock', lock,
           t_.make_ptlc_witness(R, fields, tweak, f_hex), False)
+    free = [b for b in range(8) if not (allowed >> b) & 1]
+    if free:
+        g_hex = f'{f | (1 << free[j % len(free)]):02x}'
+        judge('ptlc:claim-flag-not-permitted', lock,
+              t_.make_ptlc_witness(R, fields, sigflags=g_hex), False)
+        judge('ptlc:refund-flag-not-permitted', lock,
+              t_.make_ptlc_refund_witness(F, fields, g_hex), False)
+        judge('ptlc_tweak:claim-flag-not-permitted', locks['ptlc_tweak'],
+              t_.make_ptlc_witness(R, fields, tweak, g_hex), False)
     lock = locks['ptlc_tweak']
     judge('ptlc_tweak:claim', lock,
           t_.make_ptlc_witness(R, fields, tweak, f_hex), True)
